@@ -473,6 +473,19 @@ FIXED += [
       "result": "v1"}),
 ]
 
+FIXED += [
+    ('F66-sqlite-coalesce-int-float', 'C12', 'SQLite float-typed coalesce / fill_null with an integer argument is cast to float',
+     'SQLite: coalesce(int, float) / fill_null (static Float) exported Int64 when the integer argument won on every row',
+     json.loads('{"tables": [{"name": "t0", "cols": [["id", "int64"], ["b", "str"], ["d", "datetime"], ["y", "date"]], "rows": [[3, "\\"?\\u00e9_a ", {"$dt": "2000-01-01T00:00:00"}, {"$d": "1970-01-01"}], [1, "^|\\u00fc\\u00fc", null, {"$d": "2100-12-31"}], [6, "_%", {"$dt": "1999-12-31T23:59:59"}, {"$d": "1913-12-14"}], [5, "Z{*()\\u65e5", null, {"$d": "1981-09-02"}], [2, "\\n", null, {"$d": "1970-01-01"}], [4, "Z{*()\\u65e5", null, {"$d": "1964-04-29"}]]}], "steps": [{"out": "v0", "verb": "source", "table": "t0"}, {"out": "v1", "verb": "summarize", "in": "v0", "items": [["x", ["fn", "coalesce", [["fn", "count_star", [], {"filter": [["fn", "is_not_null", [["col", {"c": "id"}]], {}]]}], ["lit", null], ["cast", ["fn", "count_star", [], {}], "float64"], ["fn", "min", [["col", {"c": "id"}]], {}], ["cast", ["fn", "count_star", [], {}], "float64"]], {}]]]}, {"out": "v2", "verb": "mutate", "in": "v1", "items": [["a", ["lit", null, "int64"]]]}, {"out": "v3", "verb": "select", "in": "v2", "cols": [{"c": "x"}]}, {"out": "v4", "verb": "mutate", "in": "v3", "items": [["a", ["col", {"v": "v2", "n": "a"}]]]}], "result": "v4", "validate": "check"}')),
+]
+
+FIXED += [
+    ("F65-sql-case-int-branch-float", "C12", "SQL CASE with an integer branch and a float type is cast to float",
+     "SQLite: when(c).then(float).otherwise(int) (static Float) exported Int64 when the integer branch won on every row",
+     {"tables": [src([["id", "int64"], ["f", "float64"], ["c", "bool"]], [[1, 1.5, False], [2, 2.5, False]])],
+      "steps": [S(), st("v1", "mutate", "v0", items=[["z", ["case", [[C("c"), C("f")]], C("id")]]])], "result": "v1", "validate": "check"}),
+]
+
 
 def main():
     log = subprocess.run(["git", "-C", "/repo", "log", "--format=%h %s"], capture_output=True, text=True).stdout.splitlines()
